@@ -10,7 +10,7 @@ tie:    harness/c07_core.cc (`#define private public`) journals, for seeded smal
         var_row, var_column, sign of every solution node.  The native driver `pplv_pipcore` runs the model's `solve`
         (with the modelled compatibility_check as oracle) on the root and demands the SAME tree: shape, decision
         constraints, artificial parameters, final tableaux, entry for entry.
-judge:  on the REAL tree: every solution node without cut rows describes the same affine set as the root tableau (exact
+judge:  on the REAL tree: every solution node is coherent (OK()) and lexico-positive (the invariant of the theorems); every solution node without cut rows describes the same affine set as the root tableau (exact
         linear algebra); at every valuation of the box inside the initial context Tree.eval of the real tree equals the
         verified reference lexminRef, and every row of the final tableau of the node reached is non-negative.
 verdicts: `real:*` = the real tree is wrong: VIOLATION with the case as replay (KNOWN-FINDING when it carries the tag of an
@@ -22,14 +22,23 @@ from .common import VERIF, BUILD
 
 PROPS = ["PPLV.Props.C07Core"]
 STAGE = "c07_core"
+N_FIXED = 3
 
 
 def _run_cases(ctx, h, drv, wd, seed, first, last, box, nproc=8, tag=""):
-    import concurrent.futures as cf
-    step = max(1, (last - first + nproc - 1) // nproc)
+    """chunks of 500 cases, `nproc` at a time; once 60 solves have exceeded the CPU limit the remaining chunks are not
+    started (a looping solver would otherwise cost 2 s per case): the timeout-rate rule of `_judge` reports it."""
+    import concurrent.futures as cf, threading
+    step = 500
     parts = [(a, min(a + step, last)) for a in range(first, last, step)]
+    state = {"timeouts": 0, "skipped": 0}
+    lock = threading.Lock()
 
     def work(ab):
+        with lock:
+            if state["timeouts"] >= 60:
+                state["skipped"] += ab[1] - ab[0]
+                return [], []
         jp = os.path.join(wd, "journal%s_%d.txt" % (tag, ab[0]))
         rc, _, err = ctx.run([h, "--seed", str(seed), "--first", str(ab[0]), "--last", str(ab[1]), "--cpu", "2"],
                              stdout_path=jp, timeout=3000)
@@ -39,13 +48,17 @@ def _run_cases(ctx, h, drv, wd, seed, first, last, box, nproc=8, tag=""):
         rc, _, err = ctx.run([drv, "--box", str(box)], stdin_path=jp, stdout_path=vp, timeout=3000)
         if rc != 0:
             ctx.fatal("driver pplv_pipcore failed rc=%s %s" % (rc, (err or "")[-500:]))
-        return open(jp).read().splitlines(), open(vp).read().splitlines()
+        j, v = open(jp).read().splitlines(), open(vp).read().splitlines()
+        with lock:
+            state["timeouts"] += sum(1 for l in j if l.startswith("crash SIGXCPU"))
+        return j, v
 
     journal, verdicts = [], []
     with cf.ThreadPoolExecutor(nproc) as ex:
         for j, v in ex.map(work, parts):
             journal += j
             verdicts += v
+    _run_cases.skipped = state["skipped"]
     return journal, verdicts
 
 
@@ -116,6 +129,17 @@ def _judge(ctx, journal, verdicts, seed, harness_args):
             if k == "skip" and d.startswith("exception:"):
                 stats["exception"] += 1
 
+    # a solve over the CPU limit is inconclusive, but not at any rate: the unchanged tree has < 0.1 % of them
+    touts = sorted(cid for cid, vs in per_case.items() for k, d in vs if k == "skip" and d.startswith("crash:SIGXCPU"))
+    stats["timeouts"] = len(touts)
+    if len(touts) >= max(20, len(cases) // 100):
+        cid = touts[0]
+        ctx.violation("PIP solver core: %d of %d fresh solves exceed the CPU limit of 2 s (the unchanged tree: < 0.1 %%); first: case %d | %s"
+                      % (len(touts), len(cases), cid, next((l for l in cases.get(cid, []) if l.startswith("cs")), "")[:300]),
+                      {"stage": STAGE, "seed": seed, "case": cid, "journal": cases.get(cid, [])[:12], "timeouts": touts[:50],
+                       "replay_cmd": "harness c07_core --seed %d --first %d --last %d" % (seed, cid, cid + 1)},
+                      found_input=True, record={"site": "solve:timeout-rate", "tags": []})
+
     def _key(f):
         return 0 if any(d.startswith("real:") for d in f[2]) else 1
     failing.sort(key=_key)
@@ -175,9 +199,11 @@ def run(ctx, prove=True):
     os.makedirs(wd)
     n = int(os.environ.get("C07_CORE_CASES", "16000" if quick else "300000"))
     box = 5 if quick else 8
-    journal, verdicts = _run_cases(ctx, h, drv, wd, ctx.seed, 0, n, box, nproc=8 if quick else 14)
-    cov = _judge(ctx, journal, verdicts, ctx.seed, ["--seed", str(ctx.seed), "--first", "0", "--last", str(n)])
+    # ids -3 .. -1: the fixed corpus (witnesses of findings, documented example); 0 .. n-1: generated
+    journal, verdicts = _run_cases(ctx, h, drv, wd, ctx.seed, -N_FIXED, n, box, nproc=8 if quick else 14)
+    cov = _judge(ctx, journal, verdicts, ctx.seed, ["--seed", str(ctx.seed), "--first", str(-N_FIXED), "--last", str(n)])
     cov["wall_s"] = round(time.time() - t0, 1)
+    cov["cases_not_run_after_60_timeouts"] = getattr(_run_cases, "skipped", 0)
     cov["box"] = box
     ctx.cov[STAGE] = cov
     ctx.assumptions += [
@@ -207,5 +233,4 @@ def replay(ctx, rp):
         print("  " + l[:400])
     _judge(ctx, journal, verdicts, seed, ["--seed", str(seed), "--first", str(cid), "--last", str(cid + 1)])
     shutil.rmtree(wd, ignore_errors=True)
-    print("replay: %d violation(s), %d known finding(s) met" % (len(ctx.violations), len(ctx.known_hits)))
     return 1 if ctx.violations else 0
